@@ -42,7 +42,7 @@ let eval inp obs =
   let groups = split_on ";" inp in
   let header, ops = (match groups with hd :: tl -> hd, tl | [] -> failwith "empty") in
   let avail = (match header with
-    | ["mdb"; a; _] -> List.filter_map (fun s -> if s = "" || s = "~" then None else Some (str_of_raw s))
+    | "mdb" :: a :: _ -> List.filter_map (fun s -> if s = "" || s = "~" then None else Some (str_of_raw s))
                          (String.split_on_char ',' a)
     | _ -> failwith "bad header") in
   (* oracle *)
